@@ -121,7 +121,10 @@ def background_cases(draw):
     return {'shape': [ny, nx], 'seed': draw(st.integers(0, 10**6)),
             'nspikes': draw(st.integers(0, 8)),
             'gradient': draw(st.sampled_from([0.0, 5.0, 30.0])),
-            'box': [draw(st.integers(3, 9)), draw(st.integers(3, 9))],
+            # one-pixel boxes included: the mesh then has the image's shape
+            # and no resampling is needed
+            'box': draw(st.sampled_from([None] * 6 + [[1, 1], [1, 4], [3, 1]]))
+            or [draw(st.integers(3, 9)), draw(st.integers(3, 9))],
             'filter_size': draw(st.sampled_from([1, 3, 3])),
             'filter_threshold': draw(st.sampled_from([None, 'below', 'inside',
                                                       'inside', 'above',
